@@ -229,6 +229,16 @@ def run(ctx):
                 return all("len(%s)" % x in txt for x in xs) and any(isinstance(y, ast.Compare) and isinstance(y.ops[0], (ast.Eq, ast.NotEq))
                                                                      for y in ast.walk(t))
             g = vz.guard_for(n_, length_test)
+            if g is None:
+                # the same domination by short-circuit: an earlier operand of the enclosing and/or chain
+                for b in ast.walk(m.node):
+                    if isinstance(b, ast.BoolOp):
+                        for i, operand in enumerate(b.values):
+                            if any(x is c for x in ast.walk(operand)):
+                                for prev in b.values[:i]:
+                                    want = ast.Eq if isinstance(b.op, ast.And) else ast.NotEq
+                                    if length_test(prev) and isinstance(prev, ast.Compare) and isinstance(prev.ops[0], want):
+                                        g = prev
             ctx.check(g is not None, "R15.6", m.qualname, c, loc(m, c),
                       "zip stops at the shorter list: without the length comparison a result whose tags are a prefix of another's counts "
                       "as the same result and is dropped from the merged list", desc="length comparison dominates the element-wise test")
